@@ -265,10 +265,9 @@ func (s *verifC09Store) around(run func(wrap func(trackerdb.TransactionScope) tr
 	if !h.record.Load() {
 		return run(func(tx trackerdb.TransactionScope) trackerdb.TransactionScope { return tx }, func(e error) error { return e })
 	}
-	var a basics.Round
-	h.l.trackers.mu.RLock()
-	a = h.l.trackers.dbRound
-	h.l.trackers.mu.RUnlock()
+	// (no lock: the goroutine that runs a tracker transaction is the only writer of dbRound at that moment, and a tracker
+	// that opens a transaction while the registry lock is held must not deadlock the harness)
+	a := h.l.trackers.dbRound
 	h.sawRound = false
 	h.stopT("tpre", []string{fmt.Sprintf("tbegin %d", a)})
 	err := run(func(tx trackerdb.TransactionScope) trackerdb.TransactionScope { return &verifC09Scope{tx, h} },
@@ -542,8 +541,7 @@ func (h *verifC09Run) flushAsyncT() {
 }
 
 func (h *verifC09Run) dbRoundMem() basics.Round {
-	h.l.trackers.mu.RLock()
-	defer h.l.trackers.mu.RUnlock()
+	// read after a stop of the committer was received (channel synchronisation), or while it is idle
 	return h.l.trackers.dbRound
 }
 
